@@ -34,6 +34,24 @@ def errJ : Engine.Err → Json
   | .bstSyntax => arr [Json.str "BST-SYNTAX", Json.null]
   | .run e => arr [Json.str "RUN", C03.ierrJ e]
 
+def obsJ (o : SortObs) : Json :=
+  arr (o.map fun p => arr [strToJson p.1, match p.2 with | some k => strToJson k | none => Json.null])
+
+def outJ (r : Result) (sorts : List SortObs) (auxErrors : Nat) : Json :=
+  obj [("out", obj [("bbl", strToJson r.bbl), ("reports", arr (r.reports.map C03.reportJ)),
+                    ("printed", strs r.printed), ("aux_errors", nat auxErrors)]),
+       ("spec", obj [("sorts", arr (sorts.map obsJ))])]
+
+def parseSrc (j : Json) : Except String Src := do
+  let a ← j.getArr?
+  let tag ← (a[0]!).getStr?
+  let v ← jsonToStr a[1]!
+  if tag = "file" then pure (.file v) else pure (.text v)
+
+/-- `Interpreter.run` on the script of the style with one extra command put in front of position `pos` -/
+def injectAt (prog : Bst.Program) (pos : Nat) (name : Str) : Bst.Program :=
+  prog.take pos ++ ⟨name, []⟩ :: prog.drop pos
+
 def makebib (j : Json) : Except String Json := do
   let auxFiles ← (← getArr j "aux_files").mapM fun f => do
     let a ← f.getArr?
@@ -57,21 +75,36 @@ def makebib (j : Json) : Except String Json := do
     let so ← match j.getObjVal? "style_override" with
       | .ok (Json.str s) => pure (some s.toList)
       | _ => pure none
-    let suffix ← getStr j "suffix"
-    match makeBibliography files top (auxFiles.length + 1) so suffix mc alt with
+    -- `bib_format`: absent = the default (BibTeX) reader; otherwise the reader's suffix and database
+    let fmt ← match j.getObjVal? "bib_format" with
+      | .ok (Json.obj _) => do
+        let f ← j.getObjVal? "bib_format"
+        pure (some (⟨← getStr f "suffix", alt⟩ : Engine.Format))
+      | _ => pure none
+    match makeBibliographyT files top (auxFiles.length + 1) so fmt mc with
     | .error e => pure (obj [("out", obj [("error", errJ e)])])
-    | .ok (r, auxReports) =>
-      pure (obj [("out", obj [("bbl", strToJson r.bbl), ("reports", arr (r.reports.map C03.reportJ)),
-                              ("printed", strs r.printed), ("aux_errors", nat auxReports.length)])])
+    | .ok ((r, sorts), auxReports) => pure (outJ r sorts auxReports.length)
   else
-    let names ← getStrList j "bib_names"
+    let srcs ← (← getArr j "srcs").mapM parseSrc
     let style ← getStr j "style"
     let cites ← getStrList j "citations"
-    match formatFromFiles files names style cites mc alt with
-    | .error e => pure (obj [("out", obj [("error", errJ e)])])
-    | .ok r =>
-      pure (obj [("out", obj [("bbl", strToJson r.bbl), ("reports", arr (r.reports.map C03.reportJ)),
-                              ("printed", strs r.printed), ("aux_errors", nat 0)])])
+    if mode = "inject" then
+      -- a script with an extra command, handed to `Interpreter.run` directly
+      let pos ← getNat j "inject_pos"
+      let name ← getStr j "inject_name"
+      match files.text (style ++ ".bst".toList) with
+      | none => pure (obj [("out", obj [("error", errJ (.cannotOpen style))])])
+      | some bst =>
+        match (parsePrefix bst).2 with
+        | some _ => pure (obj [("out", obj [("error", errJ .bstSyntax)])])
+        | none =>
+          match interpreterRunT runFuel ⟨files, srcs, cites, mc, alt⟩ (injectAt (parsePrefix bst).1 pos name) with
+          | .error e => pure (obj [("out", obj [("error", errJ e)])])
+          | .ok (r, sorts) => pure (outJ r sorts 0)
+    else
+      match formatFromFilesT files srcs style cites mc alt with
+      | .error e => pure (obj [("out", obj [("error", errJ e)])])
+      | .ok (r, sorts) => pure (outJ r sorts 0)
 
 def handlers : List (String × (Json → Except String Json)) := [("makebib", makebib)]
 
